@@ -71,6 +71,7 @@ type Contract struct {
 	Refines  []string
 	Includes []string
 	Except   map[string]map[string]bool // include X except labels
+	Logs     []string                   // contract targets whose calls are recorded in the call log
 	GEntry   []*Clause // ghost updates at entry: Label = ghost variable expression text
 	GReturn  []*Clause // ghost updates at return (Cond optional)
 	GAt      []*Clause // ghost updates right after an anchored instruction
@@ -120,7 +121,7 @@ type PkgContracts struct {
 	clauseSeq int
 }
 
-var kwRe = regexp.MustCompile(`^(import|pure|rec|opaque|abstract|virtual|ghostfun|specmethod|method|callee|closure|ghost_entry|ghost_return|ghost_at|assert_at|include|kindprops|func|assume|interface|functype|captures|axiom|globalinv|typeinv|requires|ensures|assigns|decreases|loop|invariant|lemma|props|ghost|let|flag|refines|var)\b`)
+var kwRe = regexp.MustCompile(`^(import|pure|rec|opaque|abstract|virtual|ghostfun|specmethod|method|callee|closure|ghost_entry|ghost_return|ghost_at|assert_at|include|kindprops|func|assume|interface|functype|captures|axiom|globalinv|typeinv|requires|ensures|assigns|decreases|loop|invariant|lemma|props|ghost|let|flag|refines|logs|var)\b`)
 
 func parseContractFile(path, pkgPath string) (*PkgContracts, error) {
 	b, err := os.ReadFile(path)
@@ -404,6 +405,9 @@ func parseContractFile(path, pkgPath string) (*PkgContracts, error) {
 			}
 		case "refines":
 			cur.Refines = append(cur.Refines, splitList(rest)...)
+		case "logs":
+			// logs T1, T2: the calls recorded in this function's call log (default: calls under the Parser contract)
+			cur.Logs = append(cur.Logs, splitList(rest)...)
 		case "include":
 			// include X [except label, label]
 			parts := strings.SplitN(rest, " except ", 2)
@@ -892,6 +896,8 @@ func same(a, b interface{}) bool { return true }
 func unchanged(l ...interface{}) bool { return true }
 func call[T any](f interface{}, args ...interface{}) (r T) { return }
 func callb(f interface{}, args ...interface{}) bool { return true }
+func cloinv(f interface{}) bool { return true }
+func captures(f interface{}) interface{} { return nil }
 func visited(k interface{}) bool { return true }
 func ncalls() int { return 0 }
 func callarg[T any](k, i int) (r T) { return }
@@ -901,6 +907,7 @@ func freshid(i int) bool { return true }
 func allocmark() int { return 0 }
 func allocatedid(i int) bool { return true }
 func maps[T any]() interface{} { return nil }
+func elems[T any]() interface{} { return nil }
 func fields[T any]() interface{} { return nil }
 func pointee(x interface{}) interface{} { return nil }
 func itercount() int { return 0 }
